@@ -74,6 +74,7 @@ def run_writer_content(chk, F, fs, rule="W6.content", names=("write_bits", "writ
                 return out
             wk = numabs.NumWalker(b, numabs.Cfg(w), F, C, assume)
             wk.inline = spec.inline
+            wk.gen_map = dict(getattr(spec, "gen", None) or {})
             if nm == "write_bits":
                 # at most 64 / W + 1 words leave in one call: bounded unrolling gives every word its own path position
                 wk.loops = {}
@@ -196,6 +197,7 @@ def run_reader_content(chk, F, fs, rule="R7.content", names=("read_bits", "peek_
                 return out
             wk = numabs.NumWalker(b, numabs.Cfg(w), F, C, assume)
             wk.inline = spec.inline
+            wk.gen_map = dict(getattr(spec, "gen", None) or {})
             wk.loops = {}
             wk.unroll = 64 // w + 2
             paths = wk.run()
@@ -340,6 +342,7 @@ def run_reader_unary_content(chk, F, fs, rule="R7.content", widths=None):
                 return out
             wk = numabs.NumWalker(b, numabs.Cfg(w), F, C, assume)
             wk.inline = spec.inline
+            wk.gen_map = dict(getattr(spec, "gen", None) or {})
             paths = wk.run()
             num = wk.num
             ok, why, cnt = True, None, 0
@@ -472,6 +475,7 @@ def _paths_for(F, spec, w, C, unroll=None):
         return out
     wk = numabs.NumWalker(b, numabs.Cfg(w), F, C, assume)
     wk.inline = spec.inline
+    wk.gen_map = dict(getattr(spec, "gen", None) or {})
     if unroll:
         wk.loops = {}
         wk.unroll = unroll
